@@ -553,6 +553,8 @@ VERB_CATALOGUE = [  # (fragment, reference spelling); every fragment is atomic (
     ('(3 + 4)', '(3 + 4)'), ('abs(-2.5)', 'abs(-2.5)'), ("float('1.5')", "float('1.5')"), ('(1 if 2 >= 0 else 2)', '(1 if True else 2)'),
     ('[1.0, 2.0][1]', '[1.0, 2.0][1]'), ('min(2, 3)', 'min(2, 3)'), ('(len(self.span) * 0 + 1)', '(1)'),
     # fragments whose *text* matters: repeated blanks, a tab, padding next to brackets inside string literals
+    # fragments containing an empty pair of braces (an empty dict, a format placeholder inside a string)
+    ('len({})', '0'), ("len('{}')", '2'), ("len('{} {}'.format(1, 2))", '3'),
     ("len('a  b')", '4'), ("len('( x )')", '5'), ("ord('\t')", '9'), ("'  x  y '.count(' ')", '5'),
 ]
 
